@@ -180,6 +180,34 @@ func tail(t []string) []string {
 	return append([]string{}, t...)
 }
 
+// freshStartsInZero opens n new connections that never SELECT and checks that their writes land in database 0:
+// the selection of a closed connection must not leak into a later one.
+func freshStartsInZero(srv *procs.Server, dbs, n int, tag string) int {
+	done := 0
+	for i := 0; i < n; i++ {
+		c, err := respc.Dial(srv.Addr, 10*time.Second)
+		if err != nil {
+			return done
+		}
+		key := fmt.Sprintf("fresh:%s:%d", tag, i)
+		_, err = c.Do("SET", key, "1")
+		c.Close()
+		if err != nil {
+			return done
+		}
+		got, err := whereIs(srv.Addr, dbs, key)
+		if err != nil {
+			return done
+		}
+		done++
+		if len(got) != 1 || got[0] != 0 {
+			report(witness{Kind: "fresh-connection", Detail: fmt.Sprintf("a new connection that never issued SELECT wrote %q into databases %v instead of database 0 (databases=%d): it inherited another connection's selection", key, got, dbs), Sig: "fresh-connection|not in database 0"})
+			return done
+		}
+	}
+	return done
+}
+
 // concurrent runs one history: conns connections hopping between databases.
 func concurrent(o *common.Opts, srv *procs.Server, dbs, conns, ops int, seed int64) (done int, interleavings int) {
 	type lastWrite struct {
@@ -300,6 +328,9 @@ func main() {
 			opsDone += d
 			hops += hp
 			histories++
+			// connections of the history are closed now, most of them with a non-zero database selected
+			time.Sleep(5 * time.Millisecond)
+			probes += freshStartsInZero(srv, cfg.dbs, 6, fmt.Sprintf("%d-%v-%d", cfg.dbs, cfg.race, h))
 			if srv.Exited() {
 				report(witness{Kind: "crash", Detail: "server exited: " + srv.CrashLine(), Sig: "crash|server exited"})
 				break
